@@ -12,7 +12,7 @@ import io
 import env
 import gen
 import refavro
-from streams import ReadOnlySeq
+from streams import ReadOnlySeq, buffered_seq
 from runner import Violation, jsonable
 from props import common
 
@@ -41,7 +41,7 @@ COMPONENTS = {
     "stub": ["ReadOnlySeq (read only) holding the faulted bytes"],
     "oracle": ["refavro.encode (foreign writer with index-site map)", "refavro.decode", "refavro.value_eq"],
 }
-PROBES = ["negative_count_block", "ge3_blocks", "empty_collection", "index_depth_ge2",
+PROBES = ["input_buffered_reader", "route_lenient_unicode", "route_return_names_under_faults", "negative_count_block", "ge3_blocks", "empty_collection", "index_depth_ge2",
           "union_site", "enum_site", "skip_mode_index", "bad_index_negative", "bad_index_high",
           "skip_last_seekable", "skip_last_sequential", "large_payload_leaf"]
 SENTINEL = 0x5EED5EED
@@ -137,22 +137,52 @@ def run_one(ch, ctx):
     ctx.sample = desc
     ctx.ev("enc", enc.hex(), wenc.hex())
     n_eval = 0
+    # less common routes: reader options.  Lenient unicode handling changes nothing for the valid UTF-8
+    # the independent encoder produces; where only "raises or not" is observed (cuts, forged indices)
+    # the options that change the shape of returned values may be switched on as well
+    ropts = {}
+    if ch.chance(30):
+        ropts = {"handle_unicode_errors": ch.pick(["replace", "ignore"])}
+        ctx.probe("route_lenient_unicode")
+    fopts = dict(ropts)
+    if ch.chance(25):
+        fopts.update(ch.pick([{"return_record_name": True}, {"return_named_type": True},
+                              {"return_record_name": True, "return_record_name_override": True},
+                              {"return_named_type": True, "return_named_type_override": True}]))
+        ctx.probe("route_return_names_under_faults")
+    desc["reader_options"] = {"fault_free": ropts, "faulted": fopts}
+    # input stream of the cut enumerations: the read-only stub, or a real io.BufferedReader with a tiny buffer
+    bufsize = ch.pick([1, 2, 3, 5, 8, 13, 64]) if ch.chance(25) else None
+    if bufsize:
+        ctx.probe("input_buffered_reader")
+        desc["input"] = "io.BufferedReader(buffer_size=%d)" % bufsize
+    mkseq = (lambda data, cut=None: buffered_seq(data, bufsize, cut=cut)) if bufsize else (lambda data, cut=None: ReadOnlySeq(data, cut=cut))
 
     # ---- fault-free -------------------------------------------------------------------
     fo = ReadOnlySeq(enc)
     try:
-        v = F.schemaless_reader(fo, S)
+        v = F.schemaless_reader(fo, S, **ropts)
     except Exception as e:  # noqa
         raise Violation("fault-free", "valid-encoding-rejected", detail={"exc": jsonable(e)}, scenario=desc)
     n_eval += 1
     if not refavro.value_eq(v, expected):
         raise Violation("fault-free", "value-differs-from-independent-decoder",
                         detail={"got": jsonable(v), "expected": jsonable(expected)}, scenario=desc)
-    if fo.remaining != 0 or fo.forbidden:
+    if fo.remaining != 0:
         raise Violation("fault-free", "bytes-not-consumed-exactly", detail={"remaining": fo.remaining, "forbidden": fo.forbidden}, scenario=desc)
+    if bufsize:
+        bfo = buffered_seq(enc, bufsize)
+        try:
+            v = F.schemaless_reader(bfo, S, **ropts)
+        except Exception as e:  # noqa
+            raise Violation("fault-free", "valid-encoding-rejected", detail={"exc": jsonable(e), "input": desc["input"]}, scenario=desc)
+        n_eval += 1
+        if not refavro.value_eq(v, expected) or bfo.tell() != len(enc):
+            raise Violation("fault-free", "value-differs-from-independent-decoder",
+                            detail={"got": jsonable(v), "expected": jsonable(expected), "consumed": bfo.tell(), "input": desc["input"]}, scenario=desc)
     fo = ReadOnlySeq(wenc)
     try:
-        v = F.schemaless_reader(fo, WS, reader_schema)
+        v = F.schemaless_reader(fo, WS, reader_schema, **ropts)
     except Exception as e:  # noqa
         raise Violation("fault-free", "skip-valid-encoding-rejected", detail={"exc": jsonable(e), "wrapped_encoding": wenc.hex()[:600]}, scenario=desc)
     n_eval += 1
@@ -162,7 +192,7 @@ def run_one(ch, ctx):
     # ---- cut(k): every proper prefix, both modes -----------------------------------------
     for k in _cuts(ch, len(enc), ctx.tier):
         try:
-            v = F.schemaless_reader(ReadOnlySeq(enc, cut=k), PS)
+            v = F.schemaless_reader(mkseq(enc, k), PS, **fopts)
         except Exception as e:  # noqa
             ctx.stat("exc_" + type(e).__name__)
             n_eval += 1
@@ -171,7 +201,7 @@ def run_one(ch, ctx):
         raise Violation("cut", "prefix-decoded", detail={"mode": "read", "cut": k, "returned": jsonable(v)}, scenario=desc)
     for k in _cuts(ch, len(wenc), ctx.tier):
         try:
-            v = F.schemaless_reader(ReadOnlySeq(wenc, cut=k), PWS, PRS)
+            v = F.schemaless_reader(mkseq(wenc, k), PWS, PRS, **fopts)
         except Exception as e:  # noqa
             n_eval += 1
             ctx.fault("cut_skip")
@@ -188,7 +218,7 @@ def run_one(ch, ctx):
          (lambda data, cut=None: ReadOnlySeq(data, cut=cut))
     ctx.probe("skip_last_seekable" if seekable else "skip_last_sequential")
     try:
-        v = F.schemaless_reader(mk(lenc), PLS, PLR)
+        v = F.schemaless_reader(mk(lenc), PLS, PLR, **ropts)
     except Exception as e:  # noqa
         raise Violation("fault-free", "skip-valid-encoding-rejected", detail={"exc": jsonable(e), "form": "skipped-last", "seekable": seekable}, scenario=desc)
     n_eval += 1
@@ -196,7 +226,7 @@ def run_one(ch, ctx):
         raise Violation("fault-free", "skip-consumed-wrong-bytes", detail={"got": jsonable(v), "form": "skipped-last"}, scenario=desc)
     for k in _cuts(ch, len(lenc), ctx.tier):
         try:
-            v = F.schemaless_reader(mk(lenc, k), PLS, PLR)
+            v = F.schemaless_reader(mk(lenc, k), PLS, PLR, **fopts)
         except Exception as e:  # noqa
             n_eval += 1
             ctx.fault("cut_skip_last")
@@ -226,7 +256,7 @@ def run_one(ch, ctx):
                 ctx.probe("bad_index_negative" if bv < 0 else "bad_index_high")
                 fo = ReadOnlySeq(forged)
                 try:
-                    v = F.schemaless_reader(fo, sch, rs) if rs is not None else F.schemaless_reader(fo, sch)
+                    v = F.schemaless_reader(fo, sch, rs, **fopts) if rs is not None else F.schemaless_reader(fo, sch, **fopts)
                 except Exception as e:  # noqa
                     n_eval += 1
                     ctx.fault("bad_index")
